@@ -75,9 +75,9 @@ func init() {
 		dir := writeTree(texts)
 		defer os.RemoveAll(dir)
 		identApp := javaapp.NewJavaIdentifierApp()
-		idents := identApp.AnalysisPath(dir)
+		idents := identApp.AnalysisPath(rootArg(dir, texts))
 		fullApp := javaapp.NewJavaFullApp()
-		deps := fullApp.AnalysisPath(dir, idents)
+		deps := fullApp.AnalysisPath(rootArg(dir, texts), idents)
 		orderFunctions(deps, desc)
 		status := L(A("ok"))
 		func() {
